@@ -6,6 +6,7 @@ from ..core import (
     callee_of,
     callee_is,
     callee_name,
+    callee_decl,
     callee_matches,
     strip_generics,
     op_place,
@@ -1078,3 +1079,90 @@ def rule_variable_count_monotone(ctx):
                     ok = any(reads_field(a) for a in rv["ops"])
                 r.check(bool(ok), anchor, "non-monotone-store", "the stored value is max(old, x) / old + k / x under x > old", "`%s` (read by n_vars()) is overwritten with a value that can be smaller than the current one: variables the solver already knows are forgotten" % target, s.loc())
     r.floor(n, 2, "stores to the variable-count fields of the back ends")
+
+
+_VEC_SHRINKERS = r"^alloc::vec::Vec::(truncate|pop|remove|swap_remove|clear|drain|retain|retain_mut|dedup|dedup_by|dedup_by_key|split_off)$"
+
+
+def rule_model_not_truncated(ctx):
+    """C15: nothing shortens the model vector"""
+    prog = ctx.prog
+    r = ctx.rule(
+        "model-never-truncated",
+        "the vector handed to Assignment::new in a SAT back end is only ever extended: no truncate / pop / clear / drain on it, and a `resize` "
+        "only under a test that the new length exceeds a non-constant quantity (the current number of variables): a model always covers every "
+        "variable the solver answered for",
+    )
+    n = 0
+    for b in prog.lib_bodies():
+        if not in_sat_module(b):
+            continue
+        for s in b.calls():
+            if not callee_is(callee_of(s), "sat::sat_solver::Assignment::new"):
+                continue
+            n += 1
+            anchor = "%s|model" % b.id
+            vec_locals, _, _ = data_deps(b, s.node["args"][0], through_calls=False)
+            vec_locals = {l for l in vec_locals if b.local_ty(l).startswith("alloc::vec::Vec<core::option::Option<bool>")}
+            bad = None
+            for l in vec_locals:
+                for m in b.mut_call_defs.get(l, []):
+                    c = callee_of(m)
+                    if callee_matches(c, _VEC_SHRINKERS):
+                        bad = (m, "%s can shorten the model" % callee_decl(c).rsplit("::", 1)[-1])
+                    elif callee_matches(c, r"^alloc::vec::Vec::resize(_with)?$"):
+                        new_len = m.node["args"][1]
+                        roots_new = _value_roots(b, new_len)
+                        guarded = False
+                        for cnd in conditions(b, m.bb):
+                            if cnd.is_discr or not cnd.is_true():
+                                continue
+                            for o in origins(b, cnd.place, transparent=()):
+                                if o.kind == "binop" and o.data["op"] in ("Gt", "Ge", "Lt", "Le"):
+                                    a0, a1 = o.data["ops"]
+                                    big, small = (a0, a1) if o.data["op"] in ("Gt", "Ge") else (a1, a0)
+                                    if op_const(small) is None and (_value_roots(b, big) & roots_new):
+                                        guarded = True
+                        if not guarded:
+                            bad = (m, "resize is not guarded by a test that the new length exceeds the current number of variables")
+            r.check(bad is None, anchor, "model-can-shrink", "the model vector is only extended", "the model vector of %s can be shortened (%s): variables the solver knows are missing from the model" % (b.path, bad[1] if bad else ""), (bad[0].loc() if bad else s.loc()))
+    r.floor(n, 2, "Assignment::new sites in the SAT layer")
+
+
+def rule_reply_is_stdout(ctx):
+    """C15 / C16: the reply handed to the parser is exactly what the child wrote"""
+    prog = ctx.prog
+    r = ctx.rule(
+        "reply-is-stdout",
+        "in the function that runs the external solver, the bytes read from the child's stdout reach the reply parser unchanged (no clear / "
+        "truncate / edit of the buffer) and the child's exit status decides nothing (SAT solvers conventionally exit with 10 / 20)",
+    )
+    n = 0
+    for b in prog.lib_bodies():
+        waits = [s for s in b.calls() if callee_is(callee_of(s), "std::process::Child::wait", "std::process::Child::wait_with_output")]
+        if not waits:
+            continue
+        n += 1
+        anchor = b.id + "|reply"
+        drains = [s for s in b.calls() if callee_matches(callee_of(s), DRAIN) and len(s.node["args"]) >= 2]
+        bufs = set()
+        for d in drains:
+            seen, _, _ = data_deps(b, d.node["args"][1], through_calls=False)
+            bufs |= {l for l in seen if b.local_ty(l).startswith("alloc::vec::Vec<u8") or b.local_ty(l) == "alloc::string::String"}
+        edits = []
+        for l in bufs:
+            for m in b.mut_call_defs.get(l, []):
+                if any((m.bb, m.si) == (dd.bb, dd.si) for dd in drains):
+                    continue
+                c = callee_of(m)
+                d = callee_decl(c) if c else "?"
+                if callee_matches(c, DRAIN):
+                    continue
+                if d in ("alloc::vec::Vec::new", "alloc::vec::Vec::with_capacity", "alloc::string::String::new", "core::ops::deref::DerefMut::deref_mut", "alloc::vec::Vec::reserve"):
+                    continue
+                edits.append((m, d))
+        r.check(not edits, anchor, "reply-edited:%s" % sorted({d.rsplit("::", 1)[-1] for _, d in edits}), "the buffer read from the child's stdout is handed over unchanged", "the reply buffer is modified after it was read (%s): the parser does not see what the solver wrote" % sorted({d for _, d in edits}), edits[0][0].loc() if edits else b.loc())
+        # exit status
+        st = [s for s in b.calls() if callee_matches(callee_of(s), r"^std::process::ExitStatus::(success|code|signal)$|ExitStatusExt")]
+        r.check(not st, anchor, "exit-status-decides", "the child's exit status is not inspected", "the child's exit status is inspected: solvers exiting with 10 / 20 (the SAT competition convention) would be treated as failed", st[0].loc() if st else b.loc())
+    r.floor(n, 1, "functions waiting for an external solver")
